@@ -241,6 +241,9 @@ func classifyLoopBody(c *fw.Ctx, s mapIterSite) []string {
 								if call, ok := unparen(x.Rhs[i]).(*ast.CallExpr); ok {
 									if id, ok := unparen(call.Fun).(*ast.Ident); ok && id.Name == "append" && len(call.Args) > 0 && exprString(call.Args[0]) == exprString(l) {
 										if sortedAfter(info, s.fd, s.loop, l) {
+											if why := sortNotTotal(info, s.fd, s.loop, l, call); why != "" {
+												leaks = append(leaks, "append to "+exprString(l)+" sorted by a key that does not determine the order of what is emitted: "+why)
+											}
 											continue
 										}
 										leaks = append(leaks, "append to "+exprString(l)+" which is not sorted before use")
@@ -607,4 +610,140 @@ func r152pool(c *fw.Ctx) {
 		})
 	}
 	c.Units[rule+" sync.Pool.Get sites"] = gets
+}
+
+// sortNotTotal: the sort that follows a map walk restores a deterministic order only if elements that
+// compare equal are indistinguishable in the output. sort.Strings/Ints/slices.Sort order the emitted values
+// themselves. For sort.Slice(s, less) the key P(s[i]) compared by less must either be the very projection
+// that is used of the elements afterwards, or be derived (through a quoting helper) from the range key of
+// the walked map, which is unique per element. Returns "" when total, else the reason.
+func sortNotTotal(info *types.Info, fd *ast.FuncDecl, loop ast.Node, slice ast.Expr, appendCall *ast.CallExpr) string {
+	name := exprString(slice)
+	var sortCall *ast.CallExpr
+	ast.Inspect(fd.Body, func(n ast.Node) bool {
+		if call, ok := n.(*ast.CallExpr); ok && call.Pos() > loop.End() && sortCall == nil {
+			if fn, ok := callee(info, call).(*types.Func); ok && fn != nil && fn.Pkg() != nil && (fn.Pkg().Path() == "sort" || fn.Pkg().Path() == "slices") {
+				for _, a := range call.Args {
+					if exprString(a) == name {
+						sortCall = call
+					}
+				}
+			}
+		}
+		return true
+	})
+	if sortCall == nil {
+		return ""
+	}
+	fn := callee(info, sortCall).(*types.Func)
+	if fn.Name() != "Slice" && fn.Name() != "SliceStable" && fn.Name() != "SortFunc" && fn.Name() != "SortStableFunc" {
+		return "" // orders the values themselves
+	}
+	lit, ok := sortCall.Args[len(sortCall.Args)-1].(*ast.FuncLit)
+	if !ok || len(lit.Body.List) != 1 {
+		return "the comparison function is not a single comparison the rule can read"
+	}
+	ret, ok := lit.Body.List[0].(*ast.ReturnStmt)
+	if !ok || len(ret.Results) != 1 {
+		return "the comparison function is not a single comparison the rule can read"
+	}
+	be, ok := unparen(ret.Results[0]).(*ast.BinaryExpr)
+	if !ok || be.Op != token.LSS {
+		return "the comparison is not `P(s[i]) < P(s[j])`"
+	}
+	// P with the element abstracted: replace `name[<ident>]` by "$"
+	proj := func(e ast.Expr) string {
+		str := exprString(e)
+		for _, f := range lit.Type.Params.List {
+			for _, nm := range f.Names {
+				str = strings.ReplaceAll(str, name+"["+nm.Name+"]", "$")
+			}
+		}
+		return str
+	}
+	px, py := proj(be.X), proj(be.Y)
+	if px != py || !strings.Contains(px, "$") {
+		return "the two sides of the comparison are not the same projection of the two elements"
+	}
+	// (a) key derived from the range key of the walked map through the appended literal
+	if rs, ok := loop.(*ast.RangeStmt); ok && rs.Key != nil {
+		keyID, _ := rs.Key.(*ast.Ident)
+		if keyID != nil && len(appendCall.Args) == 2 {
+			elem := unparen(appendCall.Args[1])
+			// element is the key itself and P is the identity
+			if id, ok := elem.(*ast.Ident); ok && id.Name == keyID.Name && px == "$" {
+				return ""
+			}
+			// element is a literal one of whose fields holds quote(key), and P selects that field
+			if lit := asLit(elem); lit != nil {
+				for fname, fe := range structFields(info, lit) {
+					arg := unparen(fe)
+					if call, ok := arg.(*ast.CallExpr); ok && len(call.Args) == 1 {
+						if cf, ok := callee(info, call).(*types.Func); ok && (cf.Name() == "astStringLit" || cf.Name() == "Quote" || cf.Name() == "stringLit") {
+							arg = unparen(call.Args[0])
+						}
+					}
+					if id, ok := arg.(*ast.Ident); ok && id.Name == keyID.Name && strings.Contains(px, "."+fname) {
+						return ""
+					}
+				}
+			}
+		}
+	}
+	// (b) the projection compared is the projection used afterwards
+	usesOnlyP := true
+	other := ""
+	seenUse := false
+	ast.Inspect(fd.Body, func(n ast.Node) bool {
+		rs, ok := n.(*ast.RangeStmt)
+		if !ok || rs.Pos() < sortCall.End() || exprString(rs.X) != name {
+			return true
+		}
+		v, _ := rs.Value.(*ast.Ident)
+		if v == nil {
+			return true
+		}
+		want := strings.ReplaceAll(px, "$", v.Name)
+		var stack []ast.Node
+		ast.Inspect(rs.Body, func(m ast.Node) bool {
+			if m == nil {
+				stack = stack[:len(stack)-1]
+				return true
+			}
+			stack = append(stack, m)
+			if id, ok := m.(*ast.Ident); ok && id.Name == v.Name && info.Uses[id] == info.Defs[v] {
+				seenUse = true
+				// the largest enclosing selector/call chain on the element
+				outer := ast.Node(id)
+				for i := len(stack) - 2; i >= 0; i-- {
+					switch p := stack[i].(type) {
+					case *ast.SelectorExpr:
+						if p.X == outer {
+							outer = p
+							continue
+						}
+					case *ast.CallExpr:
+						if p.Fun == outer {
+							outer = p
+							continue
+						}
+					}
+					break
+				}
+				if got := exprString(outer.(ast.Expr)); got != want {
+					usesOnlyP = false
+					other = got
+				}
+			}
+			return true
+		})
+		return true
+	})
+	if seenUse && usesOnlyP {
+		return ""
+	}
+	if !seenUse {
+		return "the elements are ordered by " + px + ", which is not known to be unique per element (ties keep the map's order)"
+	}
+	return "elements are ordered by " + strings.ReplaceAll(px, "$", "x") + " but " + other + " is emitted: two elements with equal keys keep the map's iteration order"
 }
